@@ -14,7 +14,7 @@ pub fn property() -> Property {
     Property {
         id: "C11",
         level: "exploration",
-        rule: "(1) hosts = ALL strings of 1..3 labels over {a,b,ab,ba,xa} + IPv4/bracketed IPv6 literals + mixed-case spellings + four names written with a trailing dot; no-proxy lists = ALL lists of <= 2 entries over {'', a, .a, b.a, A, ' a ', a., xa, an IPv4 literal, a bracketed IPv6 literal, ' .b'}; x scheme x {both proxies, http only, disabled flag}: exhaustive, once through ProxySettingsBuilder (entries verbatim) and once through the NO_PROXY environment variable (entries normalised as the statement says). (2) environment: assignments of the 8 variables {http,https,all,no}_proxy x lower/upper case over 7 values each {unset, empty, blank, valid http URL, valid https URL, socks5 URL, garbage, host:port without a scheme (name / IPv4)} for the six proxy variables, 7 values for the two no-proxy variables - all 9^6 x 7^2 = 26 040 609 in thorough, 20 000 sampled in quick; each shard process owns its environment; while each environment is in force a default-settings request (free function / fresh Session alternating) is sent as well and the address it dials must be an acceptable decision for THAT environment (thousands of different environments per process: stale process-wide state shows). (3) end-to-end send() through hook H1: the address dialled agrees with the decision. Oracle: reference decision function and environment reader written from the statement, returning the SET of acceptable outcomes (singleton except in documented gray cases). Non-trivial: a proxy is configured for the scheme; distinct = hash(configuration, host).",
+        rule: "(1) hosts = ALL strings of 1..3 labels over {a,b,ab,ba,xa} + IPv4/bracketed IPv6 literals + mixed-case spellings + four names written with a trailing dot; no-proxy lists = ALL lists of <= 2 entries over {'', a, .a, b.a, A, ' a ', a., xa, an IPv4 literal, a bracketed IPv6 literal, ' .b'}; x scheme x {both proxies, http only, disabled flag}: exhaustive, once through ProxySettingsBuilder (entries verbatim) and once through the NO_PROXY environment variable (entries normalised as the statement says). (2) environment: assignments of the 8 variables {http,https,all,no}_proxy x lower/upper case over 7 values each {unset, empty, blank, valid http URL, valid https URL, socks5 URL, garbage, host:port without a scheme (name / IPv4)} for the six proxy variables, 7 values for the two no-proxy variables - all 9^6 x 7^2 = 26 040 609 in thorough, 20 000 sampled in quick; each shard process owns its environment; while each environment is in force a default-settings request (free function / fresh Session alternating) is sent as well and the address it dials must be an acceptable decision for THAT environment (thousands of different environments per process: stale process-wide state shows). (3) end-to-end send() through hook H1: the address dialled agrees with the decision. The request URL is decorated per case (explicit port, default port spelled out, userinfo, look-alike host text in path/query/fragment): only scheme and host decide. Oracle: reference decision function and environment reader written from the statement, returning the SET of acceptable outcomes (singleton except in documented gray cases). Non-trivial: a proxy is configured for the scheme; distinct = hash(configuration, host).",
         assumptions: &["gray (executed, not judged): builder entries with blanks / leading or trailing dots / wildcards, sub-'domains' of IP literals, a blank or invalid lower-case variable next to a valid upper-case one, padded or listed '*' in NO_PROXY"],
         min_nontrivial: |t| t.pick(20_000, 200_000),
         gens,
@@ -88,6 +88,22 @@ fn decide_dot(cfg: &ProxyCfg, scheme: &str, host: &str) -> Option<Decision> {
             }
         }
     }
+}
+
+/// the request URL around the host: which proxy applies depends on scheme and host only, so
+/// explicit ports (also the scheme's default spelled out), userinfo, and look-alike text in path,
+/// query and fragment change nothing
+fn target_url(scheme: &str, host: &str, k: u64) -> Url {
+    let default_port = if scheme == "https" { 443 } else { 80 };
+    let s = match k % 6 {
+        0 => format!("{scheme}://{host}/x"),
+        1 => format!("{scheme}://{host}:8080/x"),
+        2 => format!("{scheme}://{host}:{default_port}/x"),
+        3 => format!("{scheme}://u:p@{host}:8443/x"),
+        4 => format!("{scheme}://{host}/a.test/.a?h=a.test&n=.test#a.test"),
+        _ => format!("{scheme}://user@{host}:1/"),
+    };
+    Url::parse(&s).unwrap()
 }
 
 fn clear_env() {
@@ -171,7 +187,8 @@ fn run_hostlist_builder(ctx: &mut Ctx, _rng: &mut Rng, index: u64) {
         b = b.add_no_proxy_host(e);
     }
     let settings = b.build();
-    let url = Url::parse(&format!("{scheme}://{host}/x")).unwrap();
+    let url = target_url(scheme, &host, index.wrapping_mul(0x9E37_79B9_7F4A_7C15) >> 40);
+    ctx.set_add("url_decorations", ["bare", "explicit port", "default port spelled out", "userinfo and port", "look-alike path/query/fragment", "user and port 1"][((index.wrapping_mul(0x9E37_79B9_7F4A_7C15) >> 40) % 6) as usize].to_owned());
     let got = settings.for_url(&url).cloned();
     let entries: Vec<String> = list.iter().map(|s| s.to_string()).collect();
     let cfg = ProxyCfg { http: Some("http://proxy-h.test:3128".into()), https: if mode == 0 { Some("http://proxy-s.test:3129".into()) } else { None }, disabled: false, no_proxy: entries.clone() };
@@ -199,7 +216,7 @@ fn run_hostlist_env(ctx: &mut Ctx, _rng: &mut Rng, index: u64) {
     }
     let settings = ProxySettings::from_env();
     clear_env();
-    let url = Url::parse(&format!("{scheme}://{host}/x")).unwrap();
+    let url = target_url(scheme, &host, index.wrapping_mul(0x9E37_79B9_7F4A_7C15) >> 41);
     let got = settings.for_url(&url).cloned();
     let np = if mode == 2 || !list.is_empty() { proxy::env_no_proxy(Some(&raw), None) } else { Some((false, vec![])) };
     let want = match np {
@@ -298,7 +315,7 @@ fn run_env(ctx: &mut Ctx, rng: &mut Rng, index: u64) {
     let mut judged = false;
     for scheme in ["http", "https"] {
         for host in probes {
-            let url = Url::parse(&format!("{scheme}://{host}/")).unwrap();
+            let url = target_url(scheme, host, (index + host.len() as u64).wrapping_mul(0x9E37_79B9_7F4A_7C15) >> 42);
             let got = settings.for_url(&url).map(|u| u.as_str().trim_end_matches('/').to_owned());
             let (disabled, entries) = match &np {
                 None => continue,
